@@ -49,7 +49,7 @@ def gen(rng, n, mode):
             if rng.random() < 0.25 and g["name"] not in used:
                 g["contours"] = [] if not g["components"] else g["contours"]
             g["height"] = rng.choice([0, 1000, 1000.5, 880, rng.randrange(0, 1500)])
-            g["vorg"] = rng.choice([None, None, 880, 880, 800, 700.5, rng.randrange(500, 1000)])
+            g["vorg"] = rng.choice([None, None, 880, 880, 800, 700.5, 0, 0.25, -120, rng.randrange(500, 1000)])
             for _ in range(rng.choice([0, 1, 1, 2])):
                 g["unicodes"].append(rng.choice([0x20, 0x41, 0x61, 0x3042, 0xFFFF, 0xFFFE, 0x10000, 0x1F600, 0x10FFFF, rng.randrange(0x21, 0x3000)]))
         seen = set()
